@@ -46,13 +46,22 @@ func WB(f string, e ...string) Op      { return Op{K: "WB", From: f, Ends: e, Co
 func WBi(f string, e ...string) Op     { return Op{K: "WB", From: f, Ends: e, Cond: "i"} }
 
 func inFF(from, fromF, field string) WIn { return WIn{From: from, FromF: fromF, Field: field} }
-func WT(typ, key string, ins ...WIn) Op { return Op{K: "WN", Key: key, Typ: typ, In: ins} }
-func WPh(key, h string, ins ...WIn) Op  { return Op{K: "WN", Key: key, Typ: "P", H: h, In: ins} }
-func GN(key string, sub *Sub) Op        { return Op{K: "GN", Key: key, Sub: sub} }
-func CG(sub *Sub) Op                    { return Op{K: "CG", Sub: sub} }
+func WT(typ, key string, ins ...WIn) Op  { return Op{K: "WN", Key: key, Typ: typ, In: ins} }
+func WPh(key, h string, ins ...WIn) Op   { return Op{K: "WN", Key: key, Typ: "P", H: h, In: ins} }
+func GN(key string, sub *Sub) Op         { return Op{K: "GN", Key: key, Sub: sub} }
+func CG(sub *Sub) Op                     { return Op{K: "CG", Sub: sub} }
 func WG(key string, sub *Sub, ins ...WIn) Op {
 	return Op{K: "WN", Key: key, Typ: "G", Sub: sub, In: ins}
 }
+
+// zero-target branches, branches whose condition reads an `any`, static values
+func B0(f string) Op               { return Op{K: "B", From: f, Cond: "s"} }
+func Bi0(f string) Op              { return Op{K: "B", From: f, Cond: "i"} }
+func Ba(f string, e ...string) Op  { return Op{K: "B", From: f, Ends: e, Cond: "a"} }
+func WBa(f string, e ...string) Op { return Op{K: "WB", From: f, Ends: e, Cond: "a"} }
+func WB0(f string) Op              { return Op{K: "WB", From: f, Cond: "s"} }
+func sv(op Op, field string) Op    { op.SV = field; return op }
+func subPre(sub *Sub) *Sub         { c := *sub; c.Pre = true; return &c }
 
 // graphs that are added as nodes (string→string); opts(...) = WithGraphCompileOptions
 func subOpt(sub *Sub, opt string) *Sub { return newSub(sub.FE, sub.Ops, true, opt) }
@@ -71,6 +80,8 @@ var (
 	subWfLoopBranch    = newSub("workflow", []Op{WL("a", in("start")), WL("b", in("a")), WB("b", "a", "end"), WA("end", in("b"))}, false, "")
 	subWfLoopData      = newSub("workflow", []Op{WL("a", dep("start"), inND("b")), WL("b", in("a")), WA("end", in("b"))}, false, "")
 	subWfMappedPass    = newSub("workflow", []Op{WP("p", inF("start", "X")), WS("c", in("p")), WA("end", in("c"))}, false, "")
+	// a workflow with a static value and a branch: what Workflow.Compile hands to the graph besides the inputs
+	subWfStatic = newSub("workflow", []Op{WL("a", in("start")), sv(WS("c", inF("a", "X")), "Y"), WL("b", inND("c")), WB("c", "b", "end"), WA("end", in("b"))}, false, "")
 )
 
 // nestedVariants: the graphs above with the compile options that matter for them, valid and invalid.
@@ -81,6 +92,9 @@ var nestedVariants = []*Sub{
 	subChainLine, subOpt(subChainLine, "max"), subOpt(subChainLine, "all"), subOpt(subChainLine, "any+name"),
 	subWfLine, subOpt(subWfLine, "name"), subOpt(subWfLine, "max"), subOpt(subWfLine, "name+max"), subOpt(subWfLine, "max+store"), subOpt(subWfLine, "all"), subOpt(subWfLine, "any"),
 	subWfBranch, subWfLoopDep, subWfLoopBranch, subWfLoopData, subOpt(subWfLoopData, "name"), subWfMappedPass,
+	// interrupt points on known and unknown node keys; graphs that were compiled standalone before
+	subOpt(subGraphLine, "ib=a"), subOpt(subGraphLine, "store+ia=zz"), subOpt(subChainLine, "ia=node_0"), subOpt(subWfLine, "ib=a+ia=a"), subOpt(subWfBranch, "ib=start"),
+	subWfStatic, subPre(subWfStatic), subPre(subGraphBranch), subPre(subChainLine), subPre(subGraphNoExit),
 }
 
 type family struct {
@@ -92,6 +106,7 @@ type family struct {
 	reps    int // attempts of every sequence (0 = default)
 	lenQ    int // sequence length in the quick / thorough tier (0 = by front end, see maxLen)
 	lenT    int
+	suffix  []Op // calls that follow every enumerated sequence
 }
 
 // maxLen: sequences of length 1..maxLen are enumerated. Quick tier: 4 for the
@@ -162,6 +177,33 @@ var families = []family{
 	{name: "W-loops", fe: "workflow", prelude: []Op{WL("b", in("a")), WA("end", in("b"))},
 		alpha: []Op{WL("a", in("start")), WL("a", dep("start"), inND("b")), WL("a", dep("start"), in("b")), WL("a", in("start"), dep("b")), WA("a", dep("b")), WA("a", inND("b")),
 			WB("b", "a", "end"), WB("a", "b", "end"), WA("b", dep("a")), WL("c", in("b")), WA("a", dep("c")), WS("a", inF("start", "X"), inNDF("b", "Y")), K(""), K("max")}},
+	// a pass-through node between concretely typed producers (s: *tT, i: int) and consumers declared with interface
+	// types (fooer, barer, any) or with conflicting concrete types, several inputs per node: a pass-through node takes
+	// the type of the first typed neighbour it is connected to, and a Workflow makes the connections at Compile
+	// (every sequence is repeated 40 times: the order must be a function of the calls, not of a map iteration)
+	{name: "W-passthrough-interface", fe: "workflow", reps: 40, lenQ: 3, lenT: 4,
+		prelude: []Op{WT("sT", "s", in("start")), WT("si", "i", in("start"))}, suffix: []Op{WA("end", in("a")), K("")},
+		alpha: []Op{WP("p", in("s")), WP("p", in("i")), WP("p"), WA("p", in("s")), WT("F", "a", in("p")), WT("a", "a", in("p")), WL("a", in("p")),
+			WT("R", "b", in("p")), WT("a", "b", in("p")), WL("b", in("p")), WP("q", in("p")), WT("F", "b", in("q")), WBa("p", "a", "b")}},
+	// the same on the Graph front end, where the caller's order of AddEdge / AddBranch calls decides
+	{name: "G-passthrough-interface", fe: "graph", lenQ: 3, lenT: 4, prelude: []Op{Lt("si", "i"), Lt("sT", "t"), P("p"), Lt("a", "a"), L("b"), Lt("F", "f"), Lt("R", "r")},
+		alpha: []Op{E("start", "i"), E("start", "t"), E("i", "p"), E("t", "p"), E("p", "a"), E("p", "b"), E("p", "f"), E("p", "r"), Ba("p", "a", "end"), B("p", "b", "end"),
+			E("a", "end"), E("b", "end"), K("")}},
+	// pass-through nodes whose edges wait for a type (p -> q, p -> r, all untyped), typed later by branches: by
+	// ill-formed ones without targets (which used to be accepted and typed q and r without looking at the waiting
+	// edges) and by well-formed ones; the waiting edges are kept in a Go map (30 attempts)
+	{name: "G-passthrough-waiting", fe: "graph", reps: 30, lenQ: 3, lenT: 4,
+		prelude: []Op{P("p"), P("q"), P("r"), Lt("is", "a"), L("b"), E("p", "q"), E("p", "r"), E("a", "end")}, suffix: []Op{K("")},
+		alpha: []Op{Bi0("q"), B0("r"), B0("q"), Bi("q", "a", "end"), B("r", "b", "end"), E("start", "p"), E("q", "a"), E("r", "b"), E("b", "end")}},
+	// what a Workflow hands to the graph at Compile besides the inputs - branches, static values -, Compile calls that
+	// fail for a repairable reason (END not connected yet, a step limit) before the one that succeeds, Compile twice
+	{name: "W-recompile", fe: "workflow", lenQ: 4, lenT: 5, prelude: []Op{WL("a", in("start")), WL("b", inND("a")), WB("a", "b", "end")},
+		alpha: []Op{WA("end", in("b")), K(""), K("max"), K("name"), sv(WS("c", inF("a", "X")), "Y"), WA("end", dep("c")), sv(WA("c"), "X"), sv(WA("c"), "Y"),
+			WB("a", "b", "end"), sv(WL("b", inND("a")), "Q")}},
+	// interrupt points are given by node key
+	{name: "G-interrupt-keys", fe: "graph", lenQ: 3, lenT: 3, prelude: []Op{L("a"), L("b"), E("start", "a"), E("a", "b"), E("b", "end")},
+		alpha: []Op{K("ib=a"), K("ia=b"), K("ib=zz"), K("store+ia=zz"), K("ib=end"), K("ia=start"), K("ib=a+ia=zz"), K("ib=a,b+store"), K("ib=a,zz"), K(""), GN("c", subOpt(subGraphLine, "ib=a")),
+			E("b", "c")}},
 }
 
 // countSeqs returns the number of sequences of length 1..maxLen over n symbols.
@@ -188,6 +230,7 @@ func (f *family) nthSeq(i int64) *Seq {
 		ops[k] = f.alpha[i%n]
 		i /= n
 	}
+	ops = append(ops, f.suffix...)
 	return (&Seq{FE: f.fe, State: f.state, Family: f.name, Prelude: f.prelude, Ops: ops, Reps: f.reps}).fill()
 }
 
@@ -206,6 +249,9 @@ var fullGraph = []Op{
 	K(""), K("all"), K("any"), K("max"), K("all+max"), K("any+max"), K("name"), K("store"),
 	// nodes with input / output keys, option sets in another order
 	Ph("c", "ok"), Ph("c", "ik"), Ph("c", "iok"), Lh("a", "ok"), Lh("b", "ik"), Lt("m", "b"), K("max+all"), K("name+all"), K("store+max+all"),
+	// nodes and conditions over interface types, branches without targets, interrupt points by node key
+	Lt("a", "b"), Lt("a", "a"), Lt("sa", "a"), Lt("sT", "a"), Lt("F", "b"), Ba("c", "a", "end"), Ba("a", "b", "end"), B0("a"), B0("c"), Bi0("c"), Ba("c"),
+	K("ib=a"), K("ia=b+store"), K("ib=zz"), K("ia=end"), K("all+ib=c"), K("ib=a,zz"),
 }
 
 var fullChain = []Op{
@@ -213,6 +259,7 @@ var fullChain = []Op{
 	CPar(2), CPar(3), CPar(1), CPar(0), CPar(-1), CBr(2), CBr(3), CBri(2), CBr(1), CBr(0), CBr(-1),
 	K(""), K("all"), K("any"), K("max"), K("name"), K("store"),
 	CPh("ok"), CPh("ik"), CPh("iok"), CLh("ok"), K("max+all"), K("name+any"),
+	CL("a"), CL("sa"), CL("sT"), CL("F"), {K: "CBr", N: 2, Cond: "a"}, K("ib=node_0"), K("ia=node_1+store"), K("ib=zz"), K("ia=start"),
 }
 
 var fullWorkflow = []Op{
@@ -233,6 +280,12 @@ var fullWorkflow = []Op{
 	WPh("p", "ok", in("a")), WPh("p", "ik", in("a")), WPh("p", "iok", in("a")), WT("m", "b", in("p")),
 	WL("a", dep("start"), inND("b")), WA("a", inND("b")), WA("a", inNDF("b", "Y")), WA("b", inND("a")),
 	K("name+max"), K("max+name"), K("store+max"), K("max+any"),
+	// nodes and conditions over interface types next to pass-through nodes, static values, branches without targets,
+	// interrupt points by node key
+	WT("a", "b", in("p")), WT("a", "b", in("a")), WT("sa", "a", in("start")), WT("sT", "a", in("start")), WT("F", "b", in("p")), WT("F", "b", in("a")), WP("p", in("a")),
+	WBa("p", "b", "end"), WBa("a", "b", "end"), WB0("a"), WB0("p"),
+	sv(WS("c", inF("start", "X")), "Y"), sv(WS("c", inF("a", "X")), "X"), sv(WA("c"), "Y"), sv(WA("c"), "Q"), sv(WA("b"), "X"), sv(WS("c"), "Y"),
+	K("ib=a"), K("ia=b+store"), K("ib=zz"), K("ia=end"), K("name+ib=p"),
 }
 
 func init() {
@@ -300,6 +353,12 @@ var bases = []base{
 	{name: "w-from-field-passthrough", fe: "workflow", reps: 30, ops: []Op{WT("sS", "b", in("start")), WP("p", inFF("b", "X", "")), WL("a", in("p")), WA("end", in("a")), K("name")}},
 	{name: "w-data-only", fe: "workflow", ops: []Op{WL("a", in("start")), WL("b", in("a")), WL("c", inND("a"), dep("b")), WA("end", in("c")), K("name")}},
 	{name: "w-nested", fe: "workflow", ops: []Op{WL("a", in("start")), WG("b", subOpt(subGraphLine, "all"), in("a")), WG("c", subWfBranch, in("b")), WA("end", in("c")), K("")}},
+	// a pass-through node between a concrete producer and consumers declared with interface types (Workflow: 40 attempts)
+	{name: "w-passthrough-interface", fe: "workflow", reps: 40, ops: []Op{WT("sT", "a", in("start")), WP("p", in("a")), WT("F", "b", in("p")), WT("R", "c", in("p")), WA("end", in("b"), dep("c")), K("")}},
+	{name: "g-passthrough-interface", fe: "graph", ops: []Op{Lt("si", "a"), P("c"), Lt("a", "b"), E("start", "a"), E("a", "c"), E("c", "b"), E("b", "end"), K("ib=b")}},
+	// a branch and a static value, interrupt points, a nested workflow that was compiled standalone first
+	{name: "w-static-branch", fe: "workflow", ops: []Op{WL("a", in("start")), sv(WS("c", inF("a", "X")), "Y"), WL("b", inND("c")), WB("c", "b", "end"), WA("end", in("b")), K("ia=c")}},
+	{name: "g-nested-precompiled", fe: "graph", ops: []Op{GN("a", subPre(subWfStatic)), GN("b", subPre(subGraphBranch)), E("start", "a"), E("a", "b"), E("b", "end"), K("ib=b+store")}},
 }
 
 // injection sequences of one base: (position, full-alphabet op, insert|replace).
